@@ -19,6 +19,7 @@ type monitors struct {
 	symrefl  *lib.Monitor // symmetry and reflexivity
 	logic    *lib.Monitor // And = all, Or = any, ValueAnd/ValueOr with ok
 	delivery *lib.Monitor // no-dup-delivery through Pull
+	free     *lib.Monitor // free-running lossy stages under stepped schedules
 }
 
 func newMonitors(res *lib.Result) *monitors {
@@ -28,6 +29,7 @@ func newMonitors(res *lib.Result) *monitors {
 		symrefl:  res.Monitor("symmetry-reflexivity", "every comparer: eq(x,y)==eq(y,x); eq(x,x)==true (non-negative tolerances)"),
 		logic:    res.Monitor("and-or", "And(es)(x,y) == all e(x,y); Or(es)(x,y) == any e(x,y); ValueAnd/ValueOr: ok == any ok_i, equal == all/any over the ok ones (true/false when none is ok)"),
 		delivery: res.Monitor("no-dup-delivery", "through Value.Pull / Collection.Pull with an equivalence E and backpressure: an update is delivered iff it is not E-equivalent to the value the subscriber holds (last delivered, after the read mask; with WithInclude: after include, membership changes always delivered, folded view ids = List(WithInclude) after every write). WITHOUT backpressure (events dropped/merged by the bus before the equivalence check): deliveries are a subsequence of the writes, no delivery is E-equivalent to the one before it, and the subscriber's view converges to the stored state once writes stop"),
+		free: res.Monitor("free-running-lossy", "free-running slow subscribers, schedules driven step by step (independent mirrors: latest write; per id the value at the last take, the value now, the order of the latest event). minibus.DropExcess: hands over the latest message, once, nothing else. mergeCollectionExcess: every change handed over goes from the value stored when that id's change was last handed over to the value stored now (ADD/REMOVE/UPDATE|REPLACE accordingly), ids in the order of their latest event, absent->absent not reported, nothing lost. Value.Pull without backpressure end to end: each value taken is the latest write, delivered iff NOT E-equivalent to what the subscriber holds, and a subscriber that has caught up holds the stored value or an equivalent one"),
 	}
 }
 
